@@ -14,6 +14,34 @@ def features(prog, hs):
     return ntbc, hs != "-"
 
 
+def match_expected(got, expect):
+    """static cases: `~` in the expected log stands for any error object (not nil)"""
+    g, x = got.split(","), expect.split(",")
+    if len(g) != len(x):
+        return False
+    for a, b in zip(g, x):
+        if b.endswith(":~"):
+            if not a.startswith(b[:-1]) or a.endswith(":n"):
+                return False
+        elif a != b:
+            return False
+    return True
+
+
+def compare_static(ctx, lines):
+    for line in lines:
+        inp, _, res = line.partition(" = ")
+        got = res.split(" ")[0]
+        _, name, expect = inp.split(" ")
+        ctx.case("static " + name, True)
+        ctx.count("static")
+        if not match_expected(got, expect):
+            ctx.violation("static " + name, "golua's events: %s; the manual prescribes: %s (~ = some error)" % (got, expect),
+                          "c10 static %s\nobserved %s\nexpected %s\n" % (name, got, expect))
+    for l in lines[:3]:
+        ctx.sample(l)
+
+
 def compare(ctx, impl_lines, label):
     exp = common.run_oracle("c10", impl_lines)
     if len(exp) != len(impl_lines):
@@ -57,7 +85,10 @@ def run(ctx):
                 "called function, generic for with a closing value) with to-be-closed declarations before/after every construct (<= 3), every "
                 "exit kind (fall through, break, goto out of k blocks, return, return f(), error, non-closable value, yield+close) at every level, handlers that raise (always / only "
                 "without / only with an error in flight), enumerated (quick: depth <= 1 fully, seeded samples of depth 2 and 3; "
-                "thorough: depth <= 2 fully, 1 in 20 of depth 3), rendered under pcall, as a coroutine body, with trailing labels; plus seeded random wider programs "
+                "thorough: depth <= 2 fully, 1 in 20 of depth 3), rendered under pcall, as a coroutine body, with trailing labels, loops as for / repeat-until (condition sees the body's "
+                "variable), the generic for's four values through 11 expression-list shapes (explicit, out of calls, table.unpack, `...` with 3/4/5 "
+                "values, a parenthesised call), <close> mixed with <const>; hand-written static cases (multiple <close>, __close looked up raw, "
+                "replaced / removed after the declaration, goto out of nested loops, backward goto, continue, return value before close); plus seeded random wider programs "
                 "incl. coroutines closed at a yield; non-trivial = >= 2 to-be-closed values or a raising handler; distinct by canonical text")
     ctx.assumptions = [
         "the Lua rendering of the mini-language (harness/cmd/c10 render) is faithful: do/for/pcall(function)/(function)()/goto/break/return/error",
@@ -70,6 +101,10 @@ def run(ctx):
     common.build_oracle()
     ctx.log('oracle built')
     h = common.build_go("c10", "cmd/c10")
+    rc, out, err = common.run_harness(h, ["static"])
+    if rc != 0:
+        raise common.BuildError("c10 harness failed: " + err[-2000:])
+    compare_static(ctx, out.split("\n")[:-1])
     rc, out, err = common.run_harness(h, ["chains", ctx.tier])
     if rc != 0:
         raise common.BuildError("c10 harness failed: " + err[-2000:])
@@ -87,6 +122,10 @@ def replay(ctx, path):
     h = common.build_go("c10", "cmd/c10")
     common.build_oracle()
     for line in open(path):
+        if line.startswith("c10 static "):
+            rc, out, err = common.run_harness(h, ["static", line.split()[2]])
+            print(err.strip())
+            print(out.strip())
         if line.startswith("c10 replay "):
             args = line.split()[2:]
             rc, out, err = common.run_harness(h, ["replay"] + args)
